@@ -77,6 +77,14 @@ CLAIMED = {
              'closest / farthest_point_in_path on n<=3 stub segments: global extreme and index.',
         note='Complete-roots contract for np.roots + extreme value theorem are trusted to conclude global optimality for curves; zero-length Line excluded; generic leading coefficients in quick (degenerate shapes in thorough).',
         design='3/C13'),
+    'C08': dict(
+        text='bezier_real_minmax (closed-form cubic branch, all its forks), the degenerate-cubic and quadratic routes through polyroots '
+             '(np.roots = exact symbolic root finder, degree <= 2), Line.bbox and Path.bbox run on symbolic coordinates.  Per control path '
+             'z3 (nlsat) is asked for a t in [0,1] at which the coordinate polynomial leaves [min,max] (containment, decided directly, no '
+             'calculus step trusted) and shows min/max are attained at 0, 1 or a critical point in [0,1] (tightness; the roots of B\' '
+             'enter through Vieta hypotheses).  Path.bbox = union of n<=3 symbolic boxes.',
+        note='Arc.bbox not covered yet. math.sqrt mapped to a sqrt atom, min/max in bezier.py to If-terms. Hard per-query limits (forked solver); a timed-out query is reported inconclusive.',
+        design='3/C08'),
 }
 
 NOT_YET = 'check not built yet in this round (see DESIGN.md section 3 for the plan)'
